@@ -1,7 +1,15 @@
 package main
 
 import (
+	"bytes"
+	"crypto/sha256"
+	"encoding/hex"
 	"fmt"
+	"hash/fnv"
+	"strings"
+	"unsafe"
+
+	putsvc "github.com/nspcc-dev/neofs-node/pkg/services/object/put"
 
 	"github.com/nspcc-dev/neofs-node/pkg/util/verifbridge"
 )
@@ -102,8 +110,242 @@ func ecExecNodeSeq(c *runCtx, line string, o opLine) {
 	}
 }
 
-func ecGenCoding(c *runCtx, run func([]string)) {}
+func ecGenCoding(c *runCtx, run func([]string)) {
+	var ops []string
+	maxD, maxP := 5, 3
+	lens := []int{0, 1, 2, 3, 5, 8, 16, 17, 100, 255, 256, 1000, 1023, 1024, 1025, 4096}
+	if c.thorough() {
+		maxD, maxP = 8, 4
+	}
+	for d := 1; d <= maxD; d++ {
+		for p := 0; p <= maxP; p++ {
+			n := d + p
+			for _, ln := range lens {
+				seed := c.rng.IntN(250)
+				// every erasure pattern of at most p parts for small rules, plus too-many-erased patterns
+				var pats [][]int
+				if n <= 8 {
+					for k := 0; k <= p+1 && k <= n; k++ {
+						pats = append(pats, subsetsOfSize(n, k)...)
+					}
+				}
+				if len(pats) > 60 && !c.thorough() {
+					c.rng.Shuffle(len(pats), func(i, j int) { pats[i], pats[j] = pats[j], pats[i] })
+					pats = pats[:60]
+				}
+				for _, er := range pats {
+					ops = append(ops, fmt.Sprintf("ec code d=%d p=%d len=%d seed=%d erase=%s", d, p, ln, seed, joinInts(er)))
+				}
+				// partial reconstruction
+				for t := 0; t < 3; t++ {
+					present, required := make([]int, 0), make([]int, 0)
+					for i := 0; i < n; i++ {
+						if c.rng.IntN(4) != 0 {
+							present = append(present, i)
+						}
+						if c.rng.IntN(3) == 0 {
+							required = append(required, i)
+						}
+					}
+					ops = append(ops, fmt.Sprintf("ec recon d=%d p=%d len=%d seed=%d present=%s required=%s", d, p, ln, seed, joinInts(present), joinInts(required)))
+				}
+				// memory layout of Split for several capacities
+				for _, extra := range []int{0, 1, ln / 2, ln, 3 * ln, 1024} {
+					ops = append(ops, fmt.Sprintf("ec layout d=%d p=%d len=%d cap=%d", d, p, ln, ln+extra))
+				}
+			}
+		}
+	}
+	// several rules from one pooled buffer
+	for i := 0; i < c.n(400, 6000); i++ {
+		k := 1 + c.rng.IntN(4)
+		rules := ""
+		for j := 0; j < k; j++ {
+			if j > 0 {
+				rules += ","
+			}
+			rules += fmt.Sprintf("%d/%d", 1+c.rng.IntN(6), c.rng.IntN(4))
+		}
+		ln := []int{0, 1, 7, 64, 500, 1000, 1023, 1024, 1025, 3000}[c.rng.IntN(10)]
+		if c.rng.IntN(3) == 0 {
+			ln = c.rng.IntN(1100)
+		}
+		ops = append(ops, fmt.Sprintf("ec multi rules=%s len=%d seed=%d", rules, ln, c.rng.IntN(250)))
+	}
+	run(ops)
+}
+
+func fnv32(b []byte) uint32 {
+	h := fnv.New32a()
+	h.Write(b)
+	return h.Sum32()
+}
 
 func ecExecCoding(c *runCtx, line string, o opLine) {
-	c.emit(line, "=> bad-op")
+	c.count(o.name)
+	switch o.name {
+	case "code", "recon":
+		d, p, ln, seed := o.int("d"), o.int("p"), o.int("len"), o.int("seed")
+		rule := verifbridge.ECRule{DataPartNum: uint8(d), ParityPartNum: uint8(p)}
+		payload := detPayload(ln, seed)
+		parts, sums, err := verifbridge.ECEncode(rule, append([]byte(nil), payload...))
+		if err != nil {
+			c.emit(line, "=> err encode")
+			return
+		}
+		sz := 0
+		eq := true
+		for i, pt := range parts {
+			if i == 0 {
+				sz = len(pt)
+			}
+			eq = eq && len(pt) == sz
+			sum := sha256.Sum256(pt)
+			c.oracle("announced-hash-matches-part", hex.EncodeToString(sum[:]) == sums[i], fmt.Sprintf("rule %d/%d len %d part %d", d, p, ln, i))
+		}
+		c.oracle("parts-have-equal-length", eq && len(parts) == d+p, fmt.Sprintf("rule %d/%d len %d", d, p, ln))
+		concat := verifbridge.ECConcatDataParts(rule, uint64(ln), parts)
+		c.oracle("data-parts-concatenate-to-payload", bytes.Equal(concat, payload) || (ln == 0 && len(concat) == 0), fmt.Sprintf("rule %d/%d len %d", d, p, ln))
+		orig := make([][]byte, len(parts))
+		for i := range parts {
+			orig[i] = append([]byte(nil), parts[i]...)
+		}
+		if o.name == "code" {
+			er := o.ints("erase")
+			for _, i := range er {
+				parts[i] = nil
+			}
+			got, err := verifbridge.ECDecode(rule, uint64(ln), parts)
+			desc := fmt.Sprintf("rule %d/%d len %d erased %v", d, p, ln, er)
+			if err != nil {
+				c.emit(line, fmt.Sprintf("=> ok n=%d sz=%d decode=err", len(orig), sz))
+				if ln > 0 {
+					c.oracle("any-d-parts-decode-to-payload", len(er) > p, desc+": "+err.Error())
+				}
+				return
+			}
+			c.emit(line, fmt.Sprintf("=> ok n=%d sz=%d decode=%d", len(orig), sz, fnv32(got)))
+			c.oracle("any-d-parts-decode-to-payload", bytes.Equal(got, payload), desc)
+			if len(er) > 0 && ln > 0 {
+				c.nontrivial(line)
+			}
+			return
+		}
+		present, required := o.ints("present"), o.ints("required")
+		for i := range parts {
+			if !inList(present, i) {
+				parts[i] = nil
+			}
+		}
+		err = verifbridge.ECDecodeIndexes(rule, parts, required)
+		if err != nil {
+			c.emit(line, "=> ok recon=err")
+			if ln > 0 {
+				c.oracle("partial-reconstruction-restores-requested-parts", len(present) < d, fmt.Sprintf("rule %d/%d len %d present %v required %v: %v", d, p, ln, present, required, err))
+			}
+			return
+		}
+		flags := ""
+		good := true
+		for i := range parts {
+			switch {
+			case len(parts[i]) == 0:
+				flags += "0"
+				good = good && !inList(required, i) && !inList(present, i)
+			case bytes.Equal(parts[i], orig[i]):
+				flags += "1"
+			default:
+				flags += "X"
+				good = false
+			}
+		}
+		c.emit(line, "=> ok recon="+flags)
+		if ln > 0 {
+			c.oracle("partial-reconstruction-restores-requested-parts", good, fmt.Sprintf("rule %d/%d len %d present %v required %v flags %s", d, p, ln, present, required, flags))
+			c.nontrivial(line)
+		}
+	case "layout":
+		d, p, ln, cp := o.int("d"), o.int("p"), o.int("len"), o.int("cap")
+		rule := verifbridge.ECRule{DataPartNum: uint8(d), ParityPartNum: uint8(p)}
+		touched := ln
+		var desc string
+		for _, fill := range []byte{0xAA, 0x55} {
+			buf := make([]byte, cp)
+			copy(buf, detPayload(ln, 3))
+			for i := ln; i < cp; i++ {
+				buf[i] = fill
+			}
+			parts, _, err := verifbridge.ECEncode(rule, buf[:ln])
+			if err != nil {
+				c.emit(line, "=> err encode")
+				return
+			}
+			desc = ""
+			for i, pt := range parts {
+				if i > 0 {
+					desc += ","
+				}
+				if len(pt) == 0 || cp == 0 {
+					desc += "e"
+					continue
+				}
+				off := int(uintptr(unsafe.Pointer(&pt[0])) - uintptr(unsafe.Pointer(&buf[:1][0])))
+				if off >= 0 && off < cp {
+					desc += fmt.Sprintf("v%d", off)
+				} else {
+					desc += "f"
+				}
+			}
+			for i := cp - 1; i >= ln; i-- {
+				if buf[i] != fill {
+					if i+1 > touched {
+						touched = i + 1
+					}
+					break
+				}
+			}
+			c.oracle("payload-bytes-untouched-by-encode", bytes.Equal(buf[:ln], detPayload(ln, 3)), fmt.Sprintf("rule %d/%d len %d cap %d", d, p, ln, cp))
+		}
+		c.emit(line, fmt.Sprintf("=> ok sh=%s touched=%d", desc, touched))
+	case "multi":
+		var rules []verifbridge.ECRule
+		for _, r := range strings.Split(o.kv["rules"], ",") {
+			var d, p int
+			fmt.Sscanf(r, "%d/%d", &d, &p)
+			rules = append(rules, verifbridge.ECRule{DataPartNum: uint8(d), ParityPartNum: uint8(p)})
+		}
+		ln := o.int("len")
+		payload := detPayload(ln, o.int("seed"))
+		hdr := mkObject(1, 1, nil)
+		hdr.SetPayloadSize(uint64(ln))
+		enc, err := putsvc.VerifECEncodeParent(rules, hdr, bytes.NewReader(payload))
+		if err != nil {
+			c.emit(line, "=> err")
+			return
+		}
+		flags := ""
+		for i, r := range rules {
+			want, _, _ := verifbridge.ECEncode(r, append([]byte(nil), payload...))
+			ok := len(want) == len(enc[i])
+			for j := range want {
+				ok = ok && bytes.Equal(want[j], enc[i][j])
+			}
+			if ok {
+				flags += "1"
+			} else {
+				flags += "0"
+			}
+			c.oracle("multi-rule-encoding-keeps-every-encoding-intact", ok, fmt.Sprintf("rules %s len %d: encoding #%d (%d/%d) differs from an independent encoding", o.kv["rules"], ln, i, r.DataPartNum, r.ParityPartNum))
+			if ln > 0 {
+				got, err := verifbridge.ECDecode(r, uint64(ln), enc[i])
+				c.oracle("multi-rule-encoding-decodes", err == nil && bytes.Equal(got, payload), fmt.Sprintf("rules %s len %d rule #%d", o.kv["rules"], ln, i))
+			}
+		}
+		c.emit(line, "=> ok intact="+flags)
+		if len(rules) > 1 && ln > 0 {
+			c.nontrivial(line)
+		}
+	default:
+		c.emit(line, "=> bad-op")
+	}
 }
